@@ -342,6 +342,7 @@ fn loop_case(q: &mut Q, h: &Handle, calls_tok: &str) {
             let changed = after_state != before_state || after_slots != before_slots;
             stat(&format!("loop_draws_{}", match log.len() { 0 => "0", 1..=4 => "le4", 5..=8 => "le8", 9..=20 => "le20", _ => "gt20" }), 1);
             stat(if changed { "loop_changed" } else { "loop_unchanged" }, 1);
+            stat(&format!("loop_n_{}", match sk.2 { 0 => "0", 1..=3 => "1-3", 4..=10 => "4-10", 11..=30 => "11-30", _ => "gt30" }), 1);
             if after_state != before_state {
                 stat("loop_crossed_boundary_state_changed", 1);
             }
@@ -447,11 +448,11 @@ fn run_traj(g: &mut SplitMix64, thorough: bool) {
         };
         BOND_VARS.with(|b| *b.borrow_mut() = accepted.clone());
         let calls_tok = show_calls(&calls);
-        let beta = *g.pick(&[0.25, 0.5, 1.0, 1.5, 2.0, 3.0]);
+        let beta = *g.pick(&[0.5, 1.0, 1.5, 2.0, 3.0, 4.0]);
         stat(&format!("family_{}", fam), 1);
         stat(if hb { "heatbath_on" } else { "heatbath_off" }, 1);
         stat(&format!("max_arity_{}", calls.iter().map(|c| c.vars.len()).max().unwrap_or(0)), 1);
-        for _ in 0..6 {
+        for _ in 0..8 {
             q.timestep(beta);
         }
         let k = if thorough { 16 } else { 10 };
@@ -815,7 +816,8 @@ fn run_exit(g: &mut SplitMix64, thorough: bool) {
                 let op = mk_op(&c.vars, bond, ins, outs, constant);
                 for ent_idx in 0..2 * k {
                     let ent = (ent_idx % k, ent_idx >= k);
-                    let mut ws = vec![0u64, u64::MAX, 4095, 1u64 << 63];
+                    let mut ws = vec![0u64, 4095, g.next() >> 8, g.next() | (0xffu64 << 56)];
+                    ws.push(g.next());
                     ws.push(g.next());
                     ws.push(g.next());
                     for w in ws {
